@@ -173,14 +173,17 @@ def run(run, P):
         def related(S):
             rel = tops(S)
             rel -= N
+            # what the size expression's own locals are computed from (one step back) ...
+            for l, r, comp in defs:
+                if l in rel and not _has_call(r):
+                    rel |= (tops(r) - N)
             ch = True
             while ch:
                 ch = False
+                # ... and, forwards, everything that is computed from a related value (a total that sums the sizes).  Not backwards through
+                # accumulators: `offset += a; offset += b` does not relate a to b
                 for l, r, comp in defs:
                     rs = tops(r) - N
-                    if l in rel and not rs <= rel and not _has_call(r):
-                        rel |= rs
-                        ch = True
                     if l not in rel and l not in N and rs & rel and not _has_call(r):
                         rel.add(l)
                         ch = True
